@@ -37,6 +37,14 @@ type BadNaN struct {
 	F  float64 `json:"f"`
 }
 
+// BadM brings its own encoder, which returns text that is not JSON (and no
+// error): encoding/json refuses such output, so the event has no encoding.
+type BadM struct {
+	ID int
+}
+
+func (b BadM) MarshalJSON() ([]byte, error) { return []byte(fmt.Sprintf(`{"id":%d`, b.ID)), nil }
+
 // Dyn is encodable or not depending on the value of its dynamic part.
 type Dyn struct {
 	ID      int            `json:"id"`
@@ -83,6 +91,8 @@ func idOfAny(ev any) int {
 	case BadFunc:
 		return e.ID
 	case BadNaN:
+		return e.ID
+	case BadM:
 		return e.ID
 	case Dyn:
 		return e.ID
@@ -255,6 +265,7 @@ func run(c *Case) *vkit.Outcome {
 		eventbus.Subscribe(bus, func(e BadChan) { handle(hi, e.ID) }, so...)
 		eventbus.SubscribeContext(bus, func(_ context.Context, e BadFunc) { handle(hi, e.ID) }, so...)
 		eventbus.Subscribe(bus, func(e BadNaN) { handle(hi, e.ID) }, so...)
+		eventbus.Subscribe(bus, func(e BadM) { handle(hi, e.ID) }, so...)
 		eventbus.Subscribe(bus, func(e Dyn) { handle(hi, e.ID) }, so...)
 	}
 
@@ -289,6 +300,10 @@ func run(c *Case) *vkit.Outcome {
 			case "badnan":
 				e := BadNaN{ID: id, F: math.NaN()}
 				expect[id] = exp{p.Kind, true, reflect.TypeOf(e)}
+				publish(bus, c.UseCtx, e)
+			case "badmarshal":
+				e := BadM{ID: id}
+				expect[id] = exp{"badchan", true, reflect.TypeOf(e)}
 				publish(bus, c.UseCtx, e)
 			case "dynok", "dynreject":
 				e := Dyn{ID: id, Payload: map[string]any{"k": []any{1, "two"}}, M: map[string]any{"x": id}}
@@ -406,7 +421,8 @@ func run(c *Case) *vkit.Outcome {
 				case "badchan", "badfunc", "badnan":
 					var ute *json.UnsupportedTypeError
 					var uve *json.UnsupportedValueError
-					if !errors.As(r.err, &ute) && !errors.As(r.err, &uve) {
+					var me *json.MarshalerError
+					if !errors.As(r.err, &ute) && !errors.As(r.err, &uve) && !errors.As(r.err, &me) {
 						o.Failf("", "%s: error for unencodable publish %d does not wrap the JSON error: %v", desc, id, r.err)
 						return o
 					}
